@@ -89,8 +89,8 @@ def allowedUses : List (UseSite × String) := [
   ({ pkg := "x/clp/keeper", fn := "DecToRat", kind := "math.Pow10", n := 1 }, "exact power of ten (table lookup in Go)"),
   ({ pkg := "x/clp/keeper", fn := "Keeper.GetAllLiquidityProviders", kind := "math.MaxUint64", n := 1 }, "integer constant"),
   ({ pkg := "x/clp/keeper", fn := "Keeper.GetAllLiquidityProvidersForAsset", kind := "math.MaxUint64", n := 1 }, "integer constant"),
-  ({ pkg := "x/clp/keeper", fn := "Keeper.PolicyStart", kind := "float", n := 11 }, "design 4/C09: argued (not proved) bit-deterministic; exercised by re-execution"),
-  ({ pkg := "x/clp/keeper", fn := "Keeper.PolicyStart", kind := "math.Pow", n := 1 }, "design 4/C09: pure-Go math.Pow on amd64/arm64; argued, not proved"),
+  ({ pkg := "x/clp/keeper", fn := "Keeper.PolicyStart", kind := "float", n := 11 }, "NOT CPU-independent (known finding F29): math.Pow with a fractional exponent calls the per-architecture math.Exp; exercised by the cpu-features re-executions"),
+  ({ pkg := "x/clp/keeper", fn := "Keeper.PolicyStart", kind := "math.Pow", n := 1 }, "known finding F29: math.Pow is not pure arithmetic (pow.go calls Exp, assembly with an FMA path on amd64)"),
   ({ pkg := "x/clp/keeper", fn := "msgServer.DecommissionPool", kind := "math.MaxUint64", n := 1 }, "integer constant"),
   ({ pkg := "x/clp/types", fn := "<package-level>", kind := "math.Inf", n := 6 }, "protobuf-generated `var _ = math.Inf`"),
   ({ pkg := "x/clp/types", fn := "RegisterQueryHandlerFromEndpoint", kind := "go", n := 1 }, "grpc-gateway generated; REST server, not the state machine"),
@@ -103,9 +103,9 @@ def allowedUses : List (UseSite × String) := [
   ({ pkg := "x/margin/keeper", fn := "Keeper.CheckMinLiabilities", kind := "float", n := 1 }, "design 4/C09: Dec→float64→big.Rat; argued, not proved"),
   ({ pkg := "x/margin/keeper", fn := "Keeper.GetMTPs", kind := "math.MaxUint64", n := 1 }, "integer constant"),
   ({ pkg := "x/margin/keeper", fn := "Keeper.GetMTPsForPool", kind := "math.MaxUint64", n := 1 }, "integer constant"),
-  ({ pkg := "x/margin/keeper", fn := "Keeper.GetSQFromBlocks", kind := "float", n := 8 }, "design 4/C09: argued (not proved) bit-deterministic; exercised by re-execution"),
+  ({ pkg := "x/margin/keeper", fn := "Keeper.GetSQFromBlocks", kind := "float", n := 8 }, "NOT CPU-independent (known finding F29): math.Pow with a fractional exponent calls the per-architecture math.Exp; exercised by the cpu-features re-executions"),
   ({ pkg := "x/margin/keeper", fn := "Keeper.GetSQFromBlocks", kind := "math.E", n := 1 }, "constant"),
-  ({ pkg := "x/margin/keeper", fn := "Keeper.GetSQFromBlocks", kind := "math.Pow", n := 1 }, "design 4/C09: pure-Go math.Pow; argued, not proved"),
+  ({ pkg := "x/margin/keeper", fn := "Keeper.GetSQFromBlocks", kind := "math.Pow", n := 1 }, "known finding F29: math.Pow is not pure arithmetic (pow.go calls Exp, assembly with an FMA path on amd64)"),
   ({ pkg := "x/margin/keeper", fn := "Keeper.GetWhitelist", kind := "math.MaxUint64", n := 1 }, "integer constant"),
   ({ pkg := "x/margin/types", fn := "<package-level>", kind := "math.Inf", n := 5 }, "protobuf-generated `var _ = math.Inf`"),
   ({ pkg := "x/margin/types", fn := "RegisterQueryHandlerFromEndpoint", kind := "go", n := 1 }, "grpc-gateway generated"),
